@@ -1666,8 +1666,8 @@ func (tr *Trans) checkIsolation(valT types.Type, val string, pos token.Pos, what
 }
 
 // atLine: checkpoint clauses `atline "text" label: cond`. The condition is asserted (and from then on assumed)
-// immediately before the first instruction, in translation order, that comes from the first source line of the
-// function which contains the text or from a later line. The text anchors the clause to a place in the source
+// immediately before the first instruction, in translation order, of the earliest source line with instructions
+// at or after the first line of the function which contains the text. The text anchors the clause to a place in the source
 // (typically the comment that opens the next section); a text that no longer occurs is contract drift.
 func (tr *Trans) atLine(fr *Frame, ins ssa.Instruction) {
 	pos := ins.Pos()
@@ -1717,7 +1717,20 @@ func (tr *Trans) atLine(fr *Frame, ins ssa.Instruction) {
 			tr.eng.fatal("%s:%d: atline %q: no such source line in %s (contract drift)", tr.contract.File, cl.Line, cl.Callee, tr.name)
 			continue
 		}
-		if p.Line < anchor {
+		// the statement the checkpoint precedes: the earliest source line at or after the anchor that has
+		// instructions of this function (block order is not source order: an if.done block precedes the
+		// blocks nested in the branches, so "first instruction at or after the anchor" could be a later join)
+		target := 0
+		for _, b := range fr.fn.Blocks {
+			for _, in := range b.Instrs {
+				if ip := in.Pos(); ip.IsValid() {
+					if q := tr.eng.fset.Position(ip); q.Filename == p.Filename && q.Line >= anchor && (target == 0 || q.Line < target) {
+						target = q.Line
+					}
+				}
+			}
+		}
+		if p.Line != target {
 			continue
 		}
 		tr.atLineDone[cl] = true
